@@ -27,10 +27,16 @@ var fmtField = map[string][2]string{"fromfmt": {"From", "fmt@x.test"}, "tofmt": 
 	"replyfmt": {"Reply-To", "fmt@x.test"}, "mdnfmt": {"Disposition-Notification-To", "fmt@x.test"}, "dispname": {"From", "from@x.test"}}
 
 // build the message for a (setter, value) pair; wordB selects the B word encoder
+// msgEnc is the message-level encoding of the case in progress when it is neither quoted-printable nor base64
+// ("8bit", "7bit": the header word encoder then falls back to Q); "" otherwise.
+var msgEnc string
+
 func build(setter string, val string, wordB bool) (*gomail.Msg, *bytex.MsgSpec, error) {
 	s := &bytex.MsgSpec{From: "from@x.test", To: []string{"to@y.test"}}
 	if wordB {
 		s.Enc = "base64"
+	} else if msgEnc != "" {
+		s.Enc = msgEnc
 	}
 	txt := bytex.Producer{Chunks: [][]byte{[]byte("plain body\r\n")}}
 	html := bytex.Producer{Chunks: [][]byte{[]byte("<p>html body</p>\r\n")}}
@@ -218,6 +224,8 @@ func runCase(r *hx.Run, c hx.Case) {
 	setter := c.Args[0]
 	val := string(hx.UnHex(c.Args[1]))
 	wordB := c.Args[2] == "b"
+	msgEnc = map[string]string{"n": "8bit", "7": "7bit"}[c.Args[2]]
+	defer func() { msgEnc = "" }()
 	m, s, err := build(setter, val, wordB)
 	if err != nil {
 		// the setter rejected the value: allowed by the property
@@ -230,6 +238,8 @@ func runCase(r *hx.Run, c hx.Case) {
 		m2 := gomail.NewMsg()
 		if wordB {
 			m2 = gomail.NewMsg(gomail.WithEncoding(gomail.EncodingB64))
+		} else if msgEnc != "" {
+			m2 = gomail.NewMsg(gomail.WithEncoding(gomail.Encoding(msgEnc)))
 		}
 		m2.Subject(val)
 		got := m2.GetGenHeader(gomail.HeaderSubject)
@@ -582,7 +592,10 @@ func Run(r *hx.Run, replay []hx.Case) {
 		if r.Expired() {
 			break
 		}
-		for _, e := range []string{"q", "b"} {
+		for _, e := range []string{"q", "b", "n", "7"} {
+			if (e == "n" || e == "7") && vi%8 != 0 {
+				continue
+			}
 			r0 := hx.Case{ID: r.NewID(), Kind: "wordenc", Args: []string{"subject", hx.Hex(v), e}}
 			runCase(r, r0)
 		}
@@ -594,6 +607,10 @@ func Run(r *hx.Run, replay []hx.Case) {
 			e := "q"
 			if (vi+si)%3 == 0 {
 				e = "b"
+			}
+			// every fifth case with a message encoding that has no header word encoder of its own (8bit, 7bit)
+			if (vi+si)%5 == 1 {
+				e = []string{"n", "7"}[(vi+si)%2]
 			}
 			runCase(r, hx.Case{ID: r.NewID(), Kind: "hv", Args: []string{st, hx.Hex(v), e}})
 		}
